@@ -32,7 +32,7 @@ from vlib import f2b, fs2b, b2fs
 from props import c01
 
 ID = "C02"
-GEN = ["Leaves", "Combinators", "Planar"]
+GEN = ["Leaves", "Combinators", "Planar", "Bnaf"]
 RULE = ("log-det outputs (methods transform_and_log_det / inverse_and_log_det) of expression trees over generated leaves "
         "(Affine/Loc/Scale with both signs, Exp, SoftPlus, Tanh, LeakyTanh, RationalQuadraticSpline with perturbed raw parameters) "
         "under generated Chain/Invert, depth<=3, on boundary-directed inputs (interval ends, knots, ±max_val, tanh(max_val), ±1, 0, "
@@ -46,6 +46,10 @@ TRUSTED = [
     "Prelude/Jnp.lean specs of where/abs/sign/clip/searchsorted/getItem/sumElem (validated by this correspondence)",
     "Model/ToBij.lean elementwise lifting (hand-written; validated here against real arrays of ranks 1-3 and against Stack)",
     "theorems are over ℝ: IEEE rounding/overflow is measured (rtol 1e-8) not proved",
+    "BlockAutoregressiveNetwork.transform_and_log_det: hand-written Model/BnafLd.lean (layer log block-diagonals, activation -inf matrices, "
+    "batched chain, final sum) + GENERATED Gen/Bnaf.lean `logmatmulexp` (typing sheet tools/py2lean/targets_bnaf.py) + Prelude/JnpExt.lean "
+    "(`Option α` encoding of -inf and the matrix primitives); tied by tools/props/bnafld.py (whole method, inverse_and_log_det, each piece "
+    "separately, logmatmulexp with -inf entries incl. the excluded all -inf row/column) at rtol 1e-9",
 ]
 ASSUMPTIONS = [
     "every run also evaluates a bounded sample of the float64 autodiff-Jacobian oracle on real objects of every bijection class (recorded under "
@@ -212,6 +216,9 @@ def corr(c, tier, rng):
     from props import planar_tri
     planar_tri.corr_planar(c, tier, rng)
     planar_tri.corr_triangular(c, tier, rng)
+    # --- BlockAutoregressiveNetwork.transform_and_log_det AS THE CODE COMPUTES IT (Model/BnafLd.lean + generated logmatmulexp)
+    from props import bnafld
+    bnafld.corr_bnafld(c, tier, rng)
     oracle_ties(c, tier, rng)
 
 
@@ -809,6 +816,11 @@ def search(hints, tier, rng):
             wit += w
             if len(wit) >= 5:
                 return wit[:8]
+    # BlockAutoregressiveNetwork with every weight array overwritten: returned log-det vs slogdet(jacfwd), inverse log-det
+    from props import bnafld
+    wit += bnafld.search_bnafld(hints, tier, rng)
+    if len(wit) >= 5:
+        return wit[:8]
     # fixed probe of the known Planar(negative_slope > 1) defect (deterministic key, see known_findings.json)
     w, st = violations_of("planar_steep", STEEP_SEED, xs=[np.zeros(2)])
     wit += w
@@ -817,5 +829,8 @@ def search(hints, tier, rng):
 
 
 def replay(w):
+    if w.get("kind") == "bnafld":
+        from props import bnafld
+        return bnafld.replay_bnafld(w)
     wit, _ = violations_of(w["kind"], int(w["seed"]), xs=[np.asarray(w["x"], float)])
     return any(v["law"] == w["law"] for v in wit)
